@@ -35,11 +35,14 @@ type Scenario struct {
 	Format          string `json:"format"`
 	Msg             string `json:"msg"`
 	Prod            bool   `json:"prod"` // informational: decided by the child's binary name
+	// FlagHow: "set" SetFlags(f) | "addremove" AddFlags/RemoveFlags | "scope" inside a SaveFlagsAndMod scope whose
+	// outside has the opposite termination flags | "restored" after such a scope was closed again
+	FlagHow string `json:"flag_how,omitempty"`
 }
 
 func (s Scenario) String() string {
-	return fmt.Sprintf("%s severity=%v logger-level=%v noInterrupt=%v interruptAlways=%v format=%s production=%v msg=%q",
-		s.EP, slog.Level(s.R), slog.Level(s.L), s.NoInterrupt, s.InterruptAlways, s.Format, s.Prod, s.Msg)
+	return fmt.Sprintf("%s severity=%v logger-level=%v noInterrupt=%v interruptAlways=%v (flags via %q) format=%s production=%v msg=%q",
+		s.EP, slog.Level(s.R), slog.Level(s.L), s.NoInterrupt, s.InterruptAlways, s.FlagHow, s.Format, s.Prod, s.Msg)
 }
 
 func epByName(name string) *vlib.EntryPoint {
@@ -82,7 +85,36 @@ func setup(s Scenario, w io.Writer) slog.Logger {
 	if s.InterruptAlways {
 		flags |= slog.Linterruptalways
 	}
-	slog.SetFlags(flags)
+	const tbits = slog.LnoInterrupt | slog.Linterruptalways
+	opposite := flags ^ tbits // the other phase has both termination flags inverted
+	var restore func()
+	switch s.FlagHow {
+	case "addremove":
+		slog.SetFlags(opposite)
+		for _, f := range []slog.Flags{slog.LnoInterrupt, slog.Linterruptalways} {
+			if flags&f != 0 {
+				slog.AddFlags(f)
+			} else {
+				slog.RemoveFlags(f)
+			}
+		}
+	case "scope":
+		slog.SetFlags(opposite)
+		restore = slog.SaveFlagsAndMod(flags&^opposite, opposite&^flags)
+	case "restored":
+		slog.SetFlags(flags)
+		r := slog.SaveFlagsAndMod(opposite&^flags, flags&^opposite)
+		// a harmless record while the opposite flags are active
+		tmp := slog.New("c12tmp").SetWriter(io.Discard).SetErrorWriter(io.Discard).SetLevel(slog.AlwaysLevel)
+		tmp.Info("inside the scope")
+		r()
+	default:
+		slog.SetFlags(flags)
+	}
+	_ = restore // the scope stays open for the call (the process / case ends afterwards)
+	if slog.GetFlags()&tbits != flags&tbits {
+		panic("harness: termination flags not as wanted")
+	}
 	lg := slog.New("c12")
 	switch s.Format {
 	case "json":
@@ -326,6 +358,13 @@ func levelsAll() []int {
 	return append(ls, int(custPanicLike))
 }
 
+// severitiesForChildren adds numeric levels outside the built-in range (unregistered negative and huge
+// values): "no other severity ever panics or exits". Only used in child processes - a wrongly
+// terminating severity would take the harness process down in-process.
+func severitiesForChildren() []int {
+	return append(levelsAll(), -4, -1, -1000, 12, 1 << 20)
+}
+
 func epNamesFor(r slog.Level) []string {
 	var out []string
 	for _, e := range vlib.EntryPointsFor(r) {
@@ -346,7 +385,7 @@ func TestChildSampled(t *testing.T) {
 		var s Scenario
 		sevs := []int{int(slog.PanicLevel), int(slog.FatalLevel)}
 		if rapid.IntRange(0, 3).Draw(t, "negative") == 0 {
-			sevs = levelsAll()
+			sevs = severitiesForChildren()
 		}
 		s.R = rapid.SampledFrom(sevs).Draw(t, "r")
 		s.EP = rapid.SampledFrom(epNamesFor(slog.Level(s.R))).Draw(t, "ep")
@@ -355,6 +394,7 @@ func TestChildSampled(t *testing.T) {
 		s.InterruptAlways = rapid.Bool().Draw(t, "interruptAlways")
 		s.Format = rapid.SampledFrom(formats).Draw(t, "format")
 		s.Prod = rapid.Bool().Draw(t, "production")
+		s.FlagHow = rapid.SampledFrom([]string{"set", "set", "addremove", "scope", "restored"}).Draw(t, "flagHow")
 		s.Msg = "c12 " + rapid.StringMatching(`[a-z]{1,8}( [a-z]{1,5}){0,2}`).Draw(t, "msg")
 		runChild(t, "TestChildSampled", s, dir)
 	})
@@ -411,6 +451,7 @@ func TestInProcess(t *testing.T) {
 		s.NoInterrupt = rapid.Bool().Draw(t, "noInterrupt")
 		s.InterruptAlways = rapid.Bool().Draw(t, "interruptAlways")
 		s.Format = rapid.SampledFrom(formats).Draw(t, "format")
+		s.FlagHow = rapid.SampledFrom([]string{"set", "set", "addremove", "scope", "restored"}).Draw(t, "flagHow")
 		s.Msg = "c12 " + vlib.GenMsg().Draw(t, "msg")
 		prod := vlib.ProductionMode()
 		s.Prod = prod
